@@ -1081,6 +1081,22 @@ def mc_schedule(out, tier):
             extra_env={"INSTANCE": ip}, workers=max(4, common.NCPU - 2), timeout=6000, cont=False, xmx="12g"))
 
 
+def mc_swaps(out, tier):
+    """MC_Swaps: any sequence of applicable swaps (Swaps.tla) from the one-vehicle-per-trip schedule of the tiny instance:
+    structural invariant, no service trip forgotten, fresh ids."""
+    d = os.path.join(common.WORK, "cache", "mc_" + spec_hash())
+    os.makedirs(d, exist_ok=True)
+    configs = [(0, "FALSE", "3"), (0, "TRUE", "2")] if tier == "quick" else [(0, "FALSE", "4"), (1, "FALSE", "4"), (0, "TRUE", "3")]
+    for variant, nondet, steps in configs:
+        ip = os.path.join(d, "mcswaps_%d.json" % variant)
+        with open(ip, "w") as f:
+            json.dump(gen.spec_view(mcinst.tiny(variant, 3)), f)
+        mc_cached(out, "MC_Swaps_v%d_%s_%s" % (variant, nondet, steps), lambda: common.run_tlc(
+            "MC_Swaps", spec="Spec", invariants=["StructOK", "NoTripForgotten", "IdsFresh"], constraint="Bounded",
+            constants={"MaxReal": "4", "MaxDummy": "2", "MaxSteps": steps, "DepotNondet": nondet},
+            extra_env={"INSTANCE": ip}, workers=max(4, common.NCPU - 2), timeout=6000, cont=False, xmx="12g"))
+
+
 def mc_circulation(out, tier):
     d = os.path.join(common.WORK, "cache", "mc_" + spec_hash())
     os.makedirs(d, exist_ok=True)
@@ -1108,7 +1124,7 @@ def mc_tourcache(out, tier):
 MC_LEGS = {
     "C14": [mc_circulation], "C09": [mc_schedule, mc_tourcache], "C04": [mc_tourcache],
     "C01": [mc_schedule], "C02": [mc_schedule], "C03": [mc_schedule], "C05": [mc_schedule],
-    "C10": [mc_schedule], "C13": [mc_schedule],
+    "C10": [mc_schedule], "C13": [mc_schedule], "C11": [mc_swaps],
     "C06": [mc_pipeline], "C07": [mc_pipeline], "C08": [mc_pipeline], "C16": [mc_pipeline],
 }
 
